@@ -96,6 +96,64 @@ let parse_file () =
     { f_batches = bs; f_iat = is }
   | t -> raise (Bad ("file " ^ t))
 
+(* the shape printer mirrors encodeFile of harness/cmd/c06ops/shape.go *)
+let int_of_sec = function
+  | ACK -> 0 | ADV -> 1 | ARC -> 2 | ATX -> 3 | BOC -> 4 | CCD -> 5 | CIE -> 6 | COR -> 7 | CTX -> 8
+  | DNE -> 9 | ENR -> 10 | IAT -> 11 | MTE -> 12 | POP -> 13 | POS -> 14 | PPD -> 15 | RCK -> 16
+  | SHR -> 17 | TEL -> 18 | TRC -> 19 | TRX -> 20 | WEB -> 21 | XCK -> 22 | SecUnknown -> 23
+let int_of_kind = function KBase -> 24 | KSec s -> int_of_sec s
+let int_of_scc = function Mixed -> 0 | Credits -> 1 | Debits -> 2 | Advices -> 3 | SccOther -> 4
+let int_of_cat = function CFwd -> 0 | CNOC -> 1 | CRet -> 2 | CDis -> 3 | CCon -> 4 | COther -> 5
+let bit b = if b then "1" else "0"
+let bits_s = function [] -> "." | l -> String.concat "" (List.map bit l)
+let si = string_of_int
+
+let print_file (f : file) : string =
+  let t = ref [] in
+  let add s = t := s :: !t in
+  add "F"; add (si (List.length f.f_batches));
+  List.iter (function
+      | None -> add "N"
+      | Some b ->
+        add "B"; add (si (int_of_kind b.b_kind));
+        (match b.b_header with
+         | None -> add "N"
+         | Some h -> add "H"; add (si (int_of_sec h.h_sec)); add (si (int_of_scc h.h_scc)));
+        add (bit b.b_control); add (bit b.b_adv); add (bit b.b_offset);
+        add (si (List.length b.b_entries));
+        List.iter (function
+            | None -> add "N"
+            | Some e ->
+              add "E"; add (si (int_of_cat e.e_cat)); add (si (int_of_nat e.e_code));
+              add (bit e.e_a02 ^ bit e.e_a98 ^ bit e.e_a98r ^ bit e.e_a99 ^ bit e.e_a99d ^ bit e.e_a99c);
+              add (bits_s e.e_a05)) b.b_entries;
+        add (si (List.length b.b_adventries));
+        List.iter (function
+            | None -> add "N"
+            | Some e -> add "A"; add (si (int_of_cat e.ae_cat)); add (si (int_of_nat e.ae_code)); add (bit e.ae_a99)) b.b_adventries)
+    f.f_batches;
+  add (si (List.length f.f_iat));
+  List.iter (fun b ->
+      add "I";
+      (match b.ib_header with
+       | None -> add "N"
+       | Some h -> add "H"; add (si (int_of_scc h.ih_scc)); add (bit h.ih_cor));
+      add (bit b.ib_control);
+      add (si (List.length b.ib_entries));
+      List.iter (function
+          | None -> add "N"
+          | Some e ->
+            add "J"; add (si (int_of_cat e.ie_cat)); add (si (int_of_nat e.ie_code));
+            add (bit e.ie_a10 ^ bit e.ie_a11 ^ bit e.ie_a12 ^ bit e.ie_a13 ^ bit e.ie_a14 ^ bit e.ie_a15 ^ bit e.ie_a16 ^ bit e.ie_a98 ^ bit e.ie_a99);
+            add (bits_s e.ie_a17); add (bits_s e.ie_a18)) b.ib_entries)
+    f.f_iat;
+  String.concat " " (List.rev !t)
+
+let class_name = function
+  | ShWf -> "wf" | ShNilBatcher -> "nil-batcher" | ShNilHeader -> "nil-batch-header" | ShNilControl -> "nil-batch-control"
+  | ShNilEntry -> "nil-entry" | ShNilAddenda -> "nil-addenda05" | ShNilIATHeader -> "nil-iat-header"
+  | ShNilIATControl -> "nil-iat-control" | ShNilIATEntry -> "nil-iat-entry" | ShNilIATAddenda -> "nil-iat-addenda"
+
 let op_of_string = function
   | "Validate" -> OValidate | "Create" -> OCreate | "Write" -> OWrite | "WriteBypass" -> OWriteBypass
   | "MarshalJSON" -> OMarshal | "SegmentFile" -> OSegment | "FlattenBatches" -> OFlatten | "MergeFiles" -> OMerge
@@ -109,47 +167,97 @@ let single k = List.init (k + 1) (fun i -> i <> k)
 let pair j k = List.init (k + 1) (fun i -> i <> j && i <> k)
 let max_single = 400
 let max_pair = 160
+(* three adjacent bits set by mask (offset entries: debit needed, credit needed, account type) *)
+let window k mask = List.init (k + 3) (fun i -> if i < k then true else (mask lsr (i - k)) land 1 = 0)
+
+(* FromJSON: verdict and, for a returned file, its shape *)
+let json_run f o =
+  match file_from_json f () o with
+  | OK ((g, ok), _, _) -> ((if ok then "OK" else "OKE"), print_file g)
+  | ERR (_, _) -> ("ERR", "-")
+  | PANIC -> ("PANIC", "-")
+
+let split_at_hash l =
+  let rec go acc = function
+    | [] -> (List.rev acc, [])
+    | "#" :: t -> (List.rev acc, t)
+    | x :: t -> go (x :: acc) t in
+  go [] l
 
 let () =
   let counts = Hashtbl.create 16 in
+  let count k = Hashtbl.replace counts k (1 + (try Hashtbl.find counts k with Not_found -> 0)) in
+  let detail = Buffer.create 4096 in
   iter_lines Sys.argv.(1) (fun line ->
       match split_ws line with
       | id :: impl :: ops :: rest ->
-        toks := Array.of_list rest; pos := 0;
+        let (shape, result) = split_at_hash rest in
+        toks := Array.of_list shape; pos := 0;
         let out =
           (try
              let f = parse_file () in
-             let ops = List.map op_of_string (String.split_on_char ',' ops) in
-             let run o = (match ops with
-                 | [x] -> verdict (run_op x f o)
-                 | xs -> verdict (run_ops xs f o)) in
-             let m = run [] in
-             (* OK must be reproduced; ERR may stand for a data-dependent error the tried oracles do not
-                reach (two failing checks), so a model run without panic admits it; PANIC must be reproduced *)
-             let ok v = (v = impl) || (impl = "ERR" && v = "OK") in
-             let found =
-               if m = impl then "exact"
-               else if ok m then "abstracted"
-               else begin
-                 let rec go k = if k >= max_single then false else if ok (run (single k)) then true else go (k + 1) in
-                 if go 0 then "oracle"
+             let cls = class_name (file_class f) ^ (if wf_file f && not (wf_file_strict f) then "+sec" else "") in
+             if ops = "FromJSON" then begin
+               let impl_shape = String.concat " " result in
+               let (m, mshape) = json_run f [] in
+               (* a returned file must have the shape the model computes, under the oracle that reproduces the verdict *)
+               let ok (v, sh) = v = impl && (impl = "ERR" || impl = "PANIC" || sh = impl_shape) in
+               let found =
+                 if ok (m, mshape) then "exact"
                  else begin
-                   (* call sequences: one failing check per operation *)
-                   let rec go2 j k =
-                     if j >= max_pair then false
-                     else if k >= max_pair then go2 (j + 1) (j + 2)
-                     else if ok (run (pair j k)) then true else go2 j (k + 1) in
-                   if go2 0 1 then "oracle2" else "none"
-                 end
-               end in
-             let k = m ^ "/" ^ impl ^ "/" ^ found in
-             Hashtbl.replace counts k (1 + (try Hashtbl.find counts k with Not_found -> 0));
-             if found <> "none" then impl else "MODEL=" ^ m
+                   let rec go k = if k >= max_single then false else if ok (json_run f (single k)) then true else go (k + 1) in
+                   if go 0 then "oracle"
+                   else begin
+                     let rec go2 j k =
+                       if j >= 60 then false else if k >= 60 then go2 (j + 1) (j + 2)
+                       else if ok (json_run f (pair j k)) then true else go2 j (k + 1) in
+                     if go2 0 1 then "oracle2"
+                     else begin
+                       let rec go3 k mask =
+                         if k >= max_single then false else if mask > 7 then go3 (k + 1) 1
+                         else if ok (json_run f (window k mask)) then true else go3 k (mask + 1) in
+                       if go3 0 1 then "oracle3" else "none"
+                     end
+                   end
+                 end in
+               count ("json " ^ m ^ "/" ^ impl ^ "/" ^ found);
+               Buffer.add_string detail (Printf.sprintf "case %s json-doc %s %s\n" id m found);
+               if found <> "none" then impl else "MODEL=" ^ m ^ (if m = impl then " shape " ^ mshape else "")
+             end else begin
+               let ops = List.map op_of_string (String.split_on_char ',' ops) in
+               let run o = (match ops with
+                   | [x] -> verdict (run_op x f o)
+                   | xs -> verdict (run_ops xs f o)) in
+               let m = run [] in
+               (* OK must be reproduced; ERR may stand for a data-dependent error the tried oracles do not
+                  reach (two failing checks), so a model run without panic admits it; PANIC must be reproduced *)
+               let ok v = (v = impl) || (impl = "ERR" && v = "OK") in
+               let found =
+                 if m = impl then "exact"
+                 else if ok m then "abstracted"
+                 else begin
+                   let rec go k = if k >= max_single then false else if ok (run (single k)) then true else go (k + 1) in
+                   if go 0 then "oracle"
+                   else begin
+                     (* call sequences: one failing check per operation *)
+                     let rec go2 j k =
+                       if j >= max_pair then false
+                       else if k >= max_pair then go2 (j + 1) (j + 2)
+                       else if ok (run (pair j k)) then true else go2 j (k + 1) in
+                     if go2 0 1 then "oracle2" else "none"
+                   end
+                 end in
+               count (m ^ "/" ^ impl ^ "/" ^ found);
+               count ("class " ^ cls);
+               Buffer.add_string detail (Printf.sprintf "case %s %s %s %s\n" id cls m found);
+               if found <> "none" then impl else "MODEL=" ^ m
+             end
            with Bad s -> "BAD " ^ s | Invalid_argument s -> "BAD " ^ s) in
         print_string (id ^ " " ^ out ^ "\n")
       | _ -> ());
   if Array.length Sys.argv > 2 then begin
     let oc = open_out Sys.argv.(2) in
-    Hashtbl.iter (fun k v -> Printf.fprintf oc "%s %d\n" k v) counts;
+    Hashtbl.iter (fun k v -> Printf.fprintf oc "count %s %d\n" k v) counts;
+    Buffer.output_buffer oc detail;
     close_out oc
   end
